@@ -20,15 +20,15 @@ import (
 )
 
 type Env struct {
-	Dir     string
-	WS      string
-	M       *grog.Machine
-	Spec    *spec.Spec
-	Cfg     grog.Config
-	Memo    map[string]string // loose key -> "ok" | "lost"
-	Strict  map[string]bool   // strict keys that were stored once
-	Taint   map[string]bool
-	Markers map[string]bool
+	Dir       string
+	WS        string
+	M         *grog.Machine
+	Spec      *spec.Spec
+	Cfg       grog.Config
+	Memo      map[string]string // loose key -> "ok" | "lost"
+	Strict    map[string]bool   // strict keys that were stored once
+	Taint     map[string]bool
+	Markers   map[string]bool
 	LastViews map[string][]spec.DepView // dependency outputs as of each target's last execution
 	Unsure    map[string]bool           // targets whose stored result was left by a cache-disabled build
 	Pending   map[string][]string       // edit operators that changed a target's own state since its last execution
@@ -105,16 +105,16 @@ func (e *Env) Logf(f string, a ...any) { e.Log = append(e.Log, fmt.Sprintf(f, a.
 
 // Obs is what one grog invocation did, as seen at its boundary.
 type Obs struct {
-	Build   string
-	Res     *grog.Result
-	Started map[string]int
-	Ended   map[string]int
-	Failed  map[string]int
-	Views   map[string][]string // label -> views strings per successful execution
-	Checks  map[string][]int    // label -> return codes of output checks, in order
-	Anom    []string            // X lines (helper-level anomalies)
-	Order   []string            // S/E lines in file order: "S label" / "E label" / "F label"
-	ShellPids []int             // parent pids of the command helpers (the target shells)
+	Build     string
+	Res       *grog.Result
+	Started   map[string]int
+	Ended     map[string]int
+	Failed    map[string]int
+	Views     map[string][]string // label -> views strings per successful execution
+	Checks    map[string][]int    // label -> return codes of output checks, in order
+	Anom      []string            // X lines (helper-level anomalies)
+	Order     []string            // S/E lines in file order: "S label" / "E label" / "F label"
+	ShellPids []int               // parent pids of the command helpers (the target shells)
 }
 
 // ReadTrace parses the trace lines of one build id.
@@ -170,13 +170,13 @@ func (e *Env) readTrace(build string) *Obs {
 }
 
 type BuildOpts struct {
-	Patterns    []string
-	Cwd         string
+	Patterns     []string
+	Cwd          string
 	DisableCache bool
-	Flags       []string
-	Env         []string
-	Cmd         string // "build" (default) or "test"
-	Timeout     time.Duration
+	Flags        []string
+	Env          []string
+	Cmd          string // "build" (default) or "test"
+	Timeout      time.Duration
 }
 
 // RunBuild runs grog build and collects the observation.
